@@ -77,6 +77,11 @@ Proof.
     rewrite N.pred_succ, IH; reflexivity.
 Qed.
 
+Lemma takeN_app_len l1 l2 n : n = lenN l1 -> takeN (l1 ++ l2) n = l1.
+Proof. intros ->. apply takeN_app_exact. Qed.
+Lemma dropN_app_len l1 l2 n : n = lenN l1 -> dropN (l1 ++ l2) n = l2.
+Proof. intros ->. apply dropN_app_exact. Qed.
+
 Lemma takeN_app_le l1 l2 n : n <= lenN l1 -> takeN (l1 ++ l2) n = takeN l1 n.
 Proof.
   revert n; induction l1 as [|x t IH]; intros n H; cbn [app lenN takeN] in *.
